@@ -124,6 +124,7 @@ fn cfgs_for(prop: &str, n: usize) -> Vec<RunCfg> {
                             on_clone: false,
                             unwind: vec![],
                             rev_again: 0,
+                            opts_order: 0,
                         });
                     }
                 }
